@@ -239,7 +239,7 @@ def main():
                       serves_properties=[c["property_id"] for c in checks],
                       kind_free_text="Lean 4 model + theorems (lean/), Rust harness on the real code (harness/), Python orchestrator (vf/)")],
         checks=checks,
-        notes="See DESIGN.md. known_findings.json lists genuine defects that are recorded rather than repaired.",
+        notes="See DESIGN.md. known_findings.json lists genuine defects that are recorded rather than repaired. Every run rebuilds the property's theorem module, prints #print axioms for each theorem (only propext / Classical.choice / Quot.sound are admitted) and scans for sorry / native_decide / axioms; the thorough tier additionally replays the compiled module with leanchecker.",
         not_applicable=[dict(property_id=p, reason=NOT_YET) for p in ALL if p not in CHECKS],
     )
     with open(os.path.join(ROOT, "MANIFEST.json"), "w") as f:
